@@ -629,3 +629,81 @@ def c15_r10(ctx):
     ctx.ob("resolved calls", n >= 900, "%d exactly resolved calls had their arguments matched against the callee's parameter names" % n)
     if n < 900:
         raise AnalysisError("only %d calls bound" % n)
+
+
+def _polarity_uses(e, sign, out, fnode, depth=0):
+    """(callee name, sign, text) for every size estimate inside `e`; sign is +1 where the value of `e` grows with it, -1 where it
+    shrinks (right operand of `-`, unary minus, divisor), 0 where unknown"""
+    if depth > 8:
+        return
+    if isinstance(e, ast.BinOp):
+        if isinstance(e.op, ast.Sub):
+            _polarity_uses(e.left, sign, out, fnode, depth)
+            _polarity_uses(e.right, -sign, out, fnode, depth)
+        elif isinstance(e.op, (ast.Div, ast.FloorDiv, ast.Mod)):
+            _polarity_uses(e.left, sign, out, fnode, depth)
+            _polarity_uses(e.right, -sign, out, fnode, depth)
+        else:
+            _polarity_uses(e.left, sign, out, fnode, depth)
+            _polarity_uses(e.right, sign, out, fnode, depth)
+        return
+    if isinstance(e, ast.UnaryOp) and isinstance(e.op, ast.USub):
+        _polarity_uses(e.operand, -sign, out, fnode, depth)
+        return
+    if isinstance(e, ast.Call):
+        nm = norm.call_name(e)
+        if nm in ("estimate_size", "estimate_min_size", "doc_count", "doc_count_all", "doc_frequency"):
+            out.append((nm, sign, norm.canon(e)))
+            return
+        for a in list(e.args) + [k.value for k in e.keywords]:
+            _polarity_uses(a, sign if nm in ("min", "max", "sum", "int", "float", "len", "abs", "round") else 0, out, fnode, depth)
+        return
+    if isinstance(e, (ast.GeneratorExp, ast.ListComp)):
+        _polarity_uses(e.elt, sign, out, fnode, depth)
+        return
+    if isinstance(e, ast.IfExp):
+        _polarity_uses(e.body, sign, out, fnode, depth)
+        _polarity_uses(e.orelse, sign, out, fnode, depth)
+        return
+    if isinstance(e, ast.Name):
+        for v in norm.assigned_names(fnode).get(e.id, []):
+            if v is not None:
+                _polarity_uses(v, sign, out, fnode, depth + 1)
+        for st in ast.walk(fnode):
+            if isinstance(st, ast.AugAssign) and isinstance(st.target, ast.Name) and st.target.id == e.id:
+                _polarity_uses(st.value, -sign if isinstance(st.op, ast.Sub) else sign, out, fnode, depth + 1)
+
+
+@rule("C15", "R12", "K8", "estimate_size() is built from upper bounds only, each in a position where more means more",
+      min_instances=8, also=("C12",),
+      clause="estimate_size() promises an upper bound on the number of matching documents (the collectors and the Or matcher "
+             "selection rely on it).  In every estimate_size() of a query class the quantities it is computed from -- a "
+             "sub-query's estimate_size(), doc_frequency(), doc_count() -- appear only where the result grows with them (never "
+             "subtracted, negated or divided by: an over-estimate there would push the result below the true count), and "
+             "estimate_min_size() (a lower bound) does not appear at all.")
+def c15_r12(ctx):
+    prog = ctx.prog
+    qbase = prog.cls("query.qcore.Query")
+    n = 0
+    for cls in prog.subclasses(qbase):
+        f = cls.methods.get("estimate_size")
+        if f is None or is_abstract_body(f):
+            continue
+        n += 1
+        ctx.saw(f)
+        bad = []
+        for r in returns_of(f):
+            if r.value is None:
+                continue
+            out = []
+            _polarity_uses(r.value, 1, out, f.node)
+            for nm, sign, text in out:
+                if nm == "estimate_min_size":
+                    bad.append("%s is a lower bound" % text)
+                elif sign < 0:
+                    bad.append("%s is subtracted / divided by" % text)
+                elif sign == 0:
+                    bad.append("%s is passed through a function of unknown direction" % text)
+        ctx.ob(f, not bad, "estimate_size() grows with every estimate it is computed from", detail="; ".join(bad[:3]))
+    if n < 8:
+        raise AnalysisError("only %d estimate_size methods found" % n)
